@@ -54,6 +54,7 @@ class Judge:
         self.bad = False
         self.last_new = None
         self.zero_regions = []  # offsets of zero-size regions handed out and not given back yet
+        self.zero_freed = False
         if register:
             bufmon.listeners.append(self)
 
@@ -113,6 +114,10 @@ class Judge:
             if self.do12:
                 sh = self.sh
                 fit = sh.fit(size, al)
+                if size == 0 and self.zero_freed:
+                    # zero-length gaps may exist in the free list by now; where a zero-size request goes is not judged
+                    w.count("zero_size_placements_not_judged")
+                    fit = None if grew else (0, off)
                 if fit is not None:
                     w.count("alloc_fit_existed")
                     if grew:
@@ -132,7 +137,7 @@ class Judge:
                 for _, c1 in ev["grows"]:
                     sh.grow_to(c1)
                 sh.grow_to(cap)
-                if fit is None and grew:
+                if fit is None and grew and not (size == 0 and self.zero_freed):
                     fit2 = sh.fit(size, al)
                     if fit2 is None or fit2[1] != off:
                         self.viol("not-first-fit-after-growth", f"returned {off}, spec says {fit2} (free={sh.free})")
@@ -165,6 +170,8 @@ class Judge:
                 if o == ev["off"] and s == ev["size"]:
                     del self.regions[rid]
                     break
+            if ev["size"] == 0:
+                self.zero_freed = True
             if self.do12 and ev["exc"] is None:
                 if not self.sh.free:
                     w.count("frees_into_full_buffer")
@@ -231,6 +238,7 @@ def fork_judge(j, rng):
     j2 = Judge(w, b2, cfg, j.do04, j.do12, stamps=j.stamps)
     j2.regions = dict(j.regions)
     j2.zero_regions = list(j.zero_regions)
+    j2.zero_freed = j.zero_freed
     j2.next_rid = j.next_rid + 1000
     j2.hist = list(j.hist[-12:]) + [("copied", how)]
     sh = Shadow(b2.capacity)
@@ -314,10 +322,10 @@ def random_history(w, rng, do04, do12):
                 buf.default_alignment = rng.choice(ALIGNS)
                 w.count("default_alignment_changed")
                 opk.append("A")
-            if rng.random() < 0.03 and j.zero_regions and not j.do12:
+            if rng.random() < 0.03 and j.zero_regions:
                 # a zero-size region handed out earlier is given back (a request like any other; no bytes change hands).
-                # Only under the C04 judge: where later zero-size requests are placed once zero-length gaps exist is not
-                # fixed by C12's statement, so the lock-step policy spec does not cover such histories.
+                # Where LATER zero-size requests are placed once zero-length gaps exist is not fixed by C12's statement
+                # and is no longer judged in that history; accounting and the placement of real requests still are.
                 z = j.zero_regions.pop(rng.randrange(len(j.zero_regions)))
                 try:
                     buf.free(z, 0)
